@@ -424,7 +424,7 @@ class MessagePassingComputation(object, metaclass=ComputationMetaClass):
             waiting_msg_count = 0
             while self._paused_messages_post:
                 waiting_msg_count += 1
-                target, msg, prio, e = self._paused_messages_post.pop()
+                target, msg, prio, e = self._paused_messages_post.pop(0)
                 self.post_msg(target, msg, prio, e)
             self.logger.debug(
                 "On resume, posting %s pending messages ", waiting_msg_count
